@@ -43,7 +43,14 @@ fn gen(t: &mut Tape, _tier: Tier) -> Scenario {
                 0 => b.std_file(),
                 1 => {
                     opts.provided = Some(b.expect.len() as u64);
-                    b.file(Some(t.u64()))
+                    // the ignored header field: all-ones, zero, the true size, garbage
+                    let f = match t.below(4) {
+                        0 => u64::MAX,
+                        1 => 0,
+                        2 => b.expect.len() as u64,
+                        _ => t.u64(),
+                    };
+                    b.file(Some(f))
                 }
                 _ => {
                     opts.provided = Some(b.expect.len() as u64);
